@@ -1,4 +1,5 @@
 pub mod c09;
 pub mod c13;
 pub mod c14;
+pub mod c15;
 pub mod c16;
